@@ -2,6 +2,7 @@ package main
 
 import (
 	"bytes"
+	"strconv"
 	"context"
 	"fmt"
 	"os"
@@ -100,10 +101,17 @@ func discharge(o *Obl, cfg *solverCfg, idx int, extra ...string) {
 	}
 	ctx, cancel := context.WithCancel(context.Background())
 	defer cancel()
-	ch := make(chan r, 3)
+	ch := make(chan r, 8)
 	start := func(name string, to int) {
 		go func() {
-			v, out, secs := runSolverCtx(ctx, name, file, to, cfg.seed)
+			seed := cfg.seed
+			base := name
+			if i := strings.Index(name, "#"); i >= 0 { // extra z3-new runs with other random seeds
+				base = name[:i]
+				k, _ := strconv.Atoi(name[i+1:])
+				seed = cfg.seed + 7919*k
+			}
+			v, out, secs := runSolverCtx(ctx, base, file, to, seed)
 			ch <- r{name, v, out, secs}
 		}()
 	}
@@ -122,7 +130,9 @@ func discharge(o *Obl, cfg *solverCfg, idx int, extra ...string) {
 				others = true
 				start("cvc5", cfg.fallback)
 				start("z3", cfg.fallback)
-				pending += 2
+				start("z3-new#1", cfg.fallback)
+				start("z3-new#2", cfg.fallback)
+				pending += 4
 			}
 		case x := <-ch:
 			pending--
@@ -137,7 +147,7 @@ func discharge(o *Obl, cfg *solverCfg, idx int, extra ...string) {
 				sawSat = true
 			}
 			if x.v == "unsat" {
-				o.Verdict, o.Backend = "discharged", x.name
+				o.Verdict, o.Backend = "discharged", strings.SplitN(x.name, "#", 2)[0]
 				o.Secs = time.Since(t0).Seconds()
 				o.Detail = detail
 				if sawSat {
